@@ -171,3 +171,25 @@ From Traph Require GenHelpers GenHelpersFacts.
 Theorem C09_source_base4_append : forall p n, GenHelpers.py_base4_append p n = Helpers.base4_append p n.
 Proof. exact GenHelpersFacts.py_base4_append_eq. Qed.
 Print Assumptions C09_source_base4_append.
+
+(* ---- the token codec as the SOURCE has it -------------------------------------------
+   GenHelpers2.v is regenerated on every run from traph/helpers.py (int_to_base64,
+   base64_to_int, build_pagination_token with their loops); GenHelpers2Facts.v proves the
+   translated functions equal to the model's, hence the round trip holds of the code's
+   own encoder/decoder pair, for every index and every path. *)
+From Traph Require GenHelpers2 GenHelpers2Facts TokenFacts.
+Theorem C09_source_build_token : forall i p,
+  GenHelpers2.py_build_pagination_token i p = Helpers.build_token i p.
+Proof. exact GenHelpers2Facts.py_build_pagination_token_eq. Qed.
+Theorem C09_source_base64_roundtrip : forall x,
+  GenHelpers2.py_base64_to_int (GenHelpers2.py_int_to_base64 x) = Some x.
+Proof.
+  intro x. rewrite GenHelpers2Facts.py_base64_to_int_eq, GenHelpers2Facts.py_int_to_base64_eq.
+  apply TokenFacts.b64_roundtrip.
+Qed.
+Theorem C09_source_token_parses : forall i p,
+  Helpers.parse_token (GenHelpers2.py_build_pagination_token i p) = Some (i, p).
+Proof. intros i p. rewrite GenHelpers2Facts.py_build_pagination_token_eq. apply TokenFacts.token_roundtrip. Qed.
+Print Assumptions C09_source_build_token.
+Print Assumptions C09_source_base64_roundtrip.
+Print Assumptions C09_source_token_parses.
